@@ -1,6 +1,5 @@
 SPECIFICATION Spec
 CONSTANTS
   K = 2
-  Variant = "current"
+  Variant = "closedguard"
 INVARIANTS HandlersAfterBody MatchingHandler BodyFailureContained AllRan NoCrash
-PROPERTY Finishes
